@@ -140,3 +140,16 @@ def decode(addrs, flat, index=None):
 def vkey(asg: dict, addrs=None):
     addrs = sorted(asg) if addrs is None else addrs
     return tuple((a, asg[a]) for a in addrs if a in asg)
+
+
+def blame(exc, default):
+    """Coarse, stable attribution of an exception: the innermost frame inside genjax's inference
+    package (`<module>.<function>`), else `default`."""
+    import traceback
+
+    best = None
+    for fr in traceback.extract_tb(exc.__traceback__):
+        fn = fr.filename.replace("\\", "/")
+        if "/genjax/_src/inference/" in fn:
+            best = f"{fn.rsplit('/', 1)[1][:-3]}.{fr.name}"
+    return best or default
